@@ -18,6 +18,7 @@ import CtyModel.Lemmas.GoctySched
 import CtyModel.Lemmas.d18Object
 import CtyModel.Lemmas.d18Num
 import CtyModel.Lemmas.d18Cval
+import CtyModel.Lemmas.d18ToCty
 import CtyModel.Generated.IntBounds
 namespace CtyModel
 namespace C18
@@ -647,7 +648,23 @@ theorem roundtrip_untagged_counterexample (S : Sched) :
     fromCtyS S ⟨.object ["a"] [.number] [false], .smap ["a"] [.n (Num.ofInt 1)]⟩ T = .ok (.struct ["a", ""] [.int 1, .int 0]) := by
   exact ⟨by decide, rfl, rfl, (object_ok_iff S _ _ _ _ _ _ _ rfl _).mpr ⟨by decide, [.int 1], rfl, rfl⟩⟩
 
+/-- Not demanded by the property (its "never panics" clause is about `FromCtyValue`), recorded because
+the audit asked for it: `ToCtyValue` does not panic on any Go value that holds no NaN (and whose
+map keys are NFC), whatever the wanted cty type — conforming to the Go value or not. -/
+theorem tocty_no_panic (norm : String → String) (g : GoVal) (ty : Ty) (h : noNaN norm g = true) :
+    ∀ w, toCty norm g ty ≠ .panic w := by
+  intro w hw
+  have := toCtyG_noPanic norm g true ty h
+  unfold toCty at hw
+  rw [hw] at this
+  cases this
+
+/-- … while a NaN does make it panic (`big.Float.SetFloat64(NaN)`); the property excludes NaN -/
+theorem tocty_nan_panics : toCty id .nan .number = .panic "NaN" ∧
+    toCty id (.slice [.flt (.fin false 1 0 53), .nan]) (.list .number) = .panic "NaN" := ⟨rfl, rfl⟩
+
 /-! non-vacuity of the d18 hypotheses -/
+example : noNaN id sampleG = true := by decide
 example : modelled (.object ["l", "s"] [.list .number, .set (.tuple [.bool])] [false, false])
     (.smap ["l", "s"] [.seq [.n (Num.ofInt 1), .null, .unk .unref], .sset [0] [.seq [.b true]]]) = true := by decide
 example : ptrN 2 (.int .w8 true) = .ptr (.ptr (.int .w8 true)) := rfl
